@@ -438,15 +438,15 @@ func (x *Exec) autoCandidates(fr *frame, li *loopInfo, pre, st *State, entryAllo
 					return Term{S: f, Sort: SBool, N: 12, UB: -1}
 				})
 				// relative to function entry, except objects reachable as pointer parameters
-				if fr.entrySt != nil && fr.depth == 0 {
-					entArr := x.heapGet(fr.entrySt, k, srt)
+				if root := x.root; root != nil && root.entrySt != nil {
+					entArr := x.heapGet(root.entrySt, k, srt)
 					var excl []string
-					for _, p := range fr.fn.Params {
+					for _, p := range root.fn.Params {
 						if pp := ptrKeyPrefix(p.Type()); pp != "" && strings.HasPrefix(key, pp) {
-							excl = append(excl, fmt.Sprintf("(not (= r %s))", fr.params[p.Name()].Term().S))
+							excl = append(excl, fmt.Sprintf("(not (= r %s))", root.params[p.Name()].Term().S))
 						}
 					}
-					fa := fr.entrySt.alloc
+					fa := root.entrySt.alloc
 					add("entry-frame "+key, func(s *State) Term {
 						cur := x.heapGet(s, key, srt)
 						if cur.S == entArr.S {
@@ -460,7 +460,7 @@ func (x *Exec) autoCandidates(fr *frame, li *loopInfo, pre, st *State, entryAllo
 			}
 		}
 	}
-	if !x.sweep {
+	if li.lc != nil && len(li.lc.Invariants) > 0 {
 		return
 	}
 	// integer cells: simple bounds against entry values and slice lengths in scope
@@ -473,12 +473,23 @@ func (x *Exec) autoCandidates(fr *frame, li *loopInfo, pre, st *State, entryAllo
 				continue
 			}
 			name := k.a.Comment
+			if name == "rangeindex" {
+				add(name+" >= -1", func(s *State) Term { return c.Cmp(token.LEQ, c.IntLit(-1), s.cells[k].L[0], pv.T) })
+			}
 			add(name+" >= 0", func(s *State) Term { return c.Cmp(token.LEQ, zero, s.cells[k].L[0], pv.T) })
 			add(name+" >= entry", func(s *State) Term { return c.Cmp(token.LEQ, pv.L[0], s.cells[k].L[0], pv.T) })
 			add(name+" <= entry", func(s *State) Term { return c.Cmp(token.GEQ, pv.L[0], s.cells[k].L[0], pv.T) })
 			// against lengths of slices held in unmodified cells / modified slice cells
-			for k2, v2 := range pre.cells {
+			var k2s []cellKey
+			for k2 := range pre.cells {
+				if k2.inst == fr.inst {
+					k2s = append(k2s, k2)
+				}
+			}
+			sort.Slice(k2s, func(i, j int) bool { return k2s[i].a.Pos() < k2s[j].a.Pos() })
+			for _, k2 := range k2s {
 				k2 := k2
+				v2 := pre.cells[k2]
 				if _, isSl := v2.T.Underlying().(*types.Slice); !isSl || len(v2.L) != 4 {
 					continue
 				}
@@ -633,6 +644,7 @@ func (x *Exec) applyContract(fr *frame, st *State, site ssa.Instruction, con *Fn
 			continue
 		}
 		x.oblige(fr, st, "requires", fmt.Sprintf("%s/requires%d", shortKey(key), cl.Ord), site.Pos(), t, "safety", cl.Tag)
+		c.AddFact(st.pc, t, "passed requires")
 	}
 	// effect on the heap
 	x.contractHavoc(fr, st, pre, con, callee, sig, env, key)
@@ -747,13 +759,7 @@ func (x *Exec) contractHavoc(fr *frame, st, pre *State, con *FnContract, callee 
 				x.freshFrame(st, k, old)
 			}
 			// unknown keys get fresh defaults
-			x.epochCtr++
-			ng := map[string]int{}
-			for kk, v := range st.gen {
-				ng[kk] = v
-			}
-			ng[""] = x.epochCtr
-			st.gen = ng
+			x.bumpPrefix(st, "")
 		} else {
 			for _, p := range sortedKeys(ms.keys) {
 				matched := false
@@ -765,13 +771,7 @@ func (x *Exec) contractHavoc(fr *frame, st, pre *State, con *FnContract, callee 
 				}
 				_ = matched
 				// keys under p not yet materialised: new default generation (sound: unknown)
-				ng := map[string]int{}
-				for kk, v := range st.gen {
-					ng[kk] = v
-				}
-				x.epochCtr++
-				ng[p] = x.epochCtr
-				st.gen = ng
+				x.bumpPrefix(st, p)
 			}
 		}
 	}
